@@ -112,9 +112,11 @@ impl FileStack {
 
                 let libpath = lib.path.join(&include.path);
                 debug!("searching for `{}` in `{}`", include.path, lib.path.display());
-                if fs::canonicalize(&libpath).is_ok() {
+                if let Ok(path) = fs::canonicalize(&libpath) {
                     debug!("adding include `{}` from directory", libpath.display());
-                    self.stack.push(libpath);
+                    // Push the canonical path: visited files are tracked by their
+                    // canonical paths, and the same file must not be parsed twice.
+                    self.stack.push(path);
                     return Ok(());
                 }
             } else {
